@@ -404,6 +404,21 @@ def _rho_backward(ctx, cp, cname, sp):
     h_ev_name, D_name = fw.args.args[1].arg, fw.args.args[2].arg
     rho, D, hev, ev, G, dsym = sp.symbols("rho D h_ev ev G d", positive=True)
     funcs = torch_funcs()
+    # floors / caps applied to the integral parameter inside the Function are part of the map that backward has to differentiate
+    _v = lambda x: x() if callable(x) and not isinstance(x, sp.Basic) else x
+    funcs[".clamp_min"] = lambda a, n: sp.Max(a[0], _v(a[1]))
+    funcs[".clamp_max"] = lambda a, n: sp.Min(a[0], _v(a[1]))
+    funcs["torch.clamp_min"] = lambda a, n: sp.Max(a[0], _v(a[1]))
+    funcs["torch.maximum"] = lambda a, n: sp.Max(a[0], _v(a[1]))
+    from ..exprs import NotConst as _NC, fold as _fold
+    consts = {}
+    for gname, gval in cp.globals.items():
+        try:
+            v_ = _fold(gval)
+            if isinstance(v_, (int, float)) and not isinstance(v_, bool):
+                consts[gname] = sp.nsimplify(v_)
+        except (_NC, TypeError, ValueError):
+            pass
     loops = [l for l in ast.walk(fw) if isinstance(l, ast.For)]
     if len(loops) != 1:
         raise AnalysisError(f"{cname}.forward: secant loop not found")
@@ -425,7 +440,7 @@ def _rho_backward(ctx, cp, cname, sp):
     t_def = [v for v in pre.get(tgt, []) if h_ev_name in names_in(v)]
     if not t_def:
         raise AnalysisError(f"{cname}.forward: target `{tgt}` is not derived from {h_ev_name}")
-    t_expr = to_sympy(t_def[0], {h_ev_name: hev, "ev": ev}, funcs)
+    t_expr = to_sympy(t_def[0], {**consts, h_ev_name: hev, "ev": ev}, funcs)
     # output map rho = f(d_final)
     out_defs = [st for st in fw.body if isinstance(st, ast.Assign) and isinstance(st.targets[0], ast.Name) and st.targets[0].id.startswith("rho")]
     if not out_defs:
@@ -458,6 +473,13 @@ def _rho_backward(ctx, cp, cname, sp):
     r0 = sp.simplify(b0 / want0)
     r1 = sp.simplify(b1 / want1)
     ok0, ok1 = identically(b0 / want0, 1), identically(b1 / want1, 1)
+    # a forward that is not linear in the integral parameter (a floor, a cap) has a derivative that depends on the parameter itself; a backward that never sees the
+    # parameter cannot reproduce it (zero gradient on the clamped side)
+    dT = sp.diff(t_expr, hev)
+    if t_expr.has(sp.Max, sp.Min, sp.Piecewise, sp.Heaviside) or sp.simplify(sp.diff(dT, hev)) != 0:
+        if hev not in b0.free_symbols:
+            ok0 = False
+            r0 = "backward ignores the floor / cap that forward applies to the parameter"
     ctx.check(ok0, "R3", cp, ret, f"{cname}.backward", f"{cname}: d rho / d h",
               f"{cname}: cotangent of the integral parameter is grad / (ev * df/drho) (implicit-function theorem)",
               f"{cname}.backward returns {sp.simplify(b0)} for the integral parameter; the implicit-function derivative is {sp.simplify(want0)} "
